@@ -7,11 +7,13 @@ One JSON object per input line: {"op": "...", ...}; one JSON line per answer:
 import DriverLib.Basic
 import DriverLib.C01
 import DriverLib.C04
+import DriverLib.C03
 open Lean Drv
 
 def handlers : List (String → Json → Option (R Json)) := [
   Drv.C01.handle,
   Drv.C04.handle,
+  Drv.C03.handle,
   fun _ _ => none]
 
 def dispatch (line : String) : Json :=
